@@ -90,8 +90,10 @@ try:
         # keep the history of verdicts: a change first missed and caught after a check was strengthened is recorded as such
         for c, v in res["checks"].items():
             prev = old.get("our_checks", {}).get(c)
-            if prev and prev.get("verdict") != v["verdict"]:
-                m["our_checks"][c]["earlier_verdict"] = prev.get("earlier_verdict", prev["verdict"])
+            if prev and prev.get("earlier_verdict"):
+                m["our_checks"][c]["earlier_verdict"] = prev["earlier_verdict"]
+            elif prev and prev.get("verdict") != v["verdict"]:
+                m["our_checks"][c]["earlier_verdict"] = prev["verdict"]
         json.dump(m, open(os.path.join(dst, "meta.json"), "w"), indent=1)
 finally:
     shutil.rmtree(clean, ignore_errors=True)
